@@ -1,11 +1,11 @@
 package main
 
 import (
-	"verif/mc/sphere"
 	"fmt"
 	"math"
 	"strconv"
 	"strings"
+	"verif/mc/sphere"
 
 	"github.com/tidwall/geojson"
 	"github.com/tidwall/geojson/geometry"
